@@ -361,9 +361,11 @@ def items(bs):
     return ",".join(item(b) for b in bs) if bs else "-"
 
 
-def tap_line(key, scripts, sel, hrp):
+def tap_line(key, scripts, sel, hrp, vout=0, seed=0, extra=0):
+    """the case as a protocol line; the last word (which output of the funding transaction is spent, the seed of the two
+    transactions, further inputs) is only for the implementation side and for replay"""
     idx, args = ("-", []) if sel is None else (str(sel[0]), sel[1])
-    return f"TAP {key.hex()} {items(scripts)} {idx} {items(args)} {hrp}"
+    return f"TAP {key.hex()} {items(scripts)} {idx} {items(args)} {hrp.encode('latin1').hex() or '-'} tx={vout}:{seed}:{extra}"
 
 
 def parse_tap_line(line):
@@ -372,22 +374,28 @@ def parse_tap_line(line):
     key = bytes.fromhex(w[1])
     scripts = un(w[2])
     sel = None if w[3] == "-" else (int(w[3]), un(w[4]) if len(w) > 4 else [])
-    hrp = w[5] if len(w) > 5 else "bcrt"
+    hrp = ("" if w[5] == "-" else bytes.fromhex(w[5]).decode("latin1")) if len(w) > 5 else "bcrt"
     return key, scripts, sel, hrp
+
+
+def parse_tx_word(line):
+    m = re.search(r" tx=(\d+):(\d+):(\d+)$", line)
+    return tuple(int(x) for x in m.groups()) if m else (0, 0, 0)
 
 
 # --------------------------------------------------------------------------------------------------
 # the implementation voice: the tap binary
 
-ERRS = [("not parsable hex value", "ERR key-hex"), ("must be 32 bytes", "ERR key-length"),
+ERRS = [("invalid address prefix", "ERR invalid-hrp"), ("not parsable hex value", "ERR key-hex"), ("must be 32 bytes", "ERR key-length"),
         ("invalid script count", "ERR script-count"), ("missing scripts", "ERR missing-scripts"),
         ("invalid script index", "ERR script-index"), ("Unable to generate tapscript commitment tree", "ERR tree"),
         ("Spending leaf was not derived", "ERR spending-leaf"), ("pubkey invalid (parse failed)", "ERR key-parse"),
         ("secp256k1_xonly_pubkey_tweak_add call failed", "ERR tweak"), ("pubkey mismatch", "ERR pubkey-mismatch")]
 
 
-def funding_txs(rnd_seed, key32, vout_index=0):
-    """an input transaction paying to OP_1 <key> at vout_index, and a transaction spending that output"""
+def funding_txs(rnd_seed, key32, vout_index=0, extra_inputs=0):
+    """an input transaction paying to OP_1 <key> at vout_index, and a transaction spending that output
+    (`extra_inputs` further, unrelated inputs after it)"""
     r = random.Random(rnd_seed)
     spk = b"\x51\x20" + key32
     outs = [(r.randrange(1000, 10 ** 9), bytes([0x00, 0x14]) + bytes(r.randrange(256) for _ in range(20))) for _ in range(vout_index)]
@@ -396,6 +404,8 @@ def funding_txs(rnd_seed, key32, vout_index=0):
     txid = sha(sha(ser_tx(*txin, witness=False)))
     tx = (r.choice((1, 2)), [[txid, vout_index, b"", r.choice((0, 0xffffffff, 0xfffffffe)), []]],
           [(r.randrange(500, 900), b"\x51\x20" + bytes(r.randrange(256) for _ in range(32)))], r.choice((0, 0, 700000)))
+    for _ in range(extra_inputs):
+        tx[1].append([bytes(r.randrange(256) for _ in range(32)), r.randrange(3), b"", 0xffffffff, []])
     return txin, tx
 
 
@@ -462,6 +472,11 @@ def observe(rc, out, err, want_tx):
     """canonical answer line of one tap run (pseudo-terminal mode) + side observations"""
     side = {}
     if rc is not None and rc < 0:
+        if "Assertion `c < 'A' || c > 'Z'' failed" in err:
+            return "ABORT bech32-assert", side
+        if "m_spent_outputs.size() == txTo.vin.size()" in err:
+            side["sighash_abort"] = True
+            return "ABORT spent-outputs-assert", side
         return f"DIED sig={-rc}", side
     if "Syntax: " in err and rc == 0:
         return "USAGE", side
@@ -473,7 +488,7 @@ def observe(rc, out, err, want_tx):
             if pat in err:
                 return word, side
         return f"EXIT {rc} " + err.strip().split("\n")[-1][:80], side
-    m = re.search(r"Resulting Bech32m address: (\S+)", out)
+    m = re.search(r"Resulting Bech32m address: ([^\n]*)", out)
     mk = re.search(r"Tweaked pubkey = ([0-9a-f]{64}) \((not )?even\)", err)
     mt = re.search(r"Tweak value = TapTweak\(([0-9a-f]{64}) \|\| ([0-9a-f]{64})\) = ([0-9a-f]{64})", err)
     if not (m and mk and mt):
@@ -481,10 +496,11 @@ def observe(rc, out, err, want_tx):
     side["address"] = m.group(1)
     dec = bech32m_decode(m.group(1))
     side["addr"] = dec
-    prog = dec[2].hex() if dec else "undecodable"
+    # (an address that does not decode — possible only with an invalid prefix — still shows the key it was made from)
+    prog = dec[2].hex() if dec else mk.group(1)
     mc = re.search(r"Final control object = ([0-9a-f]+)", err)
     control = mc.group(1) if mc else "-"
-    line = f"key={mk.group(1)} parity={1 if mk.group(2) else 0} addr_program={prog} control={control}"
+    line = f"key={mk.group(1)} parity={1 if mk.group(2) else 0} addr_program={prog} address={m.group(1) or '-'} control={control}"
     if want_tx:
         mx = re.search(r"Resulting transaction: ([0-9a-f]+)", out)
         ms = re.search(r"sighash \(little endian\) = ([0-9a-f]{64})", err)
@@ -538,8 +554,15 @@ def has_valid_ops(s):
 _REF = {}
 
 
-def python_line(key, scripts, sel):
+def hrp_valid(hrp):
+    """BIP173 human readable part, as an encoder emits it: 1..83 characters in 33..126, no upper case"""
+    return 1 <= len(hrp) <= 83 and all(33 <= ord(c) <= 126 and not c.isupper() for c in hrp)
+
+
+def python_line(key, scripts, sel, hrp="bcrt"):
     """the reference's answer from scratch (None if out of its domain)"""
+    if not hrp_valid(hrp):
+        return None
     if len(key) != 32 or not (1 <= len(scripts) <= 1024) or (sel and sel[0] >= len(scripts)):
         return None
     for k, sc in enumerate(scripts):
@@ -557,26 +580,28 @@ def python_line(key, scripts, sel):
     q, par = r
     tw = tagged("TapTweak", key + root).hex()
     if sel is None:
-        return f"key={q.hex()} parity={par} addr_program={q.hex()} control=- script=- witness=- txwitness={items([PLACEHOLDER])} root={root.hex()} tweak={tw}"
+        return (f"key={q.hex()} parity={par} addr_program={q.hex()} address={bech32m_encode(hrp, 1, q)} control=- script=- witness=- "
+                f"txwitness={items([PLACEHOLDER])} root={root.hex()} tweak={tw}")
     i, args = sel
     control = bytes([0xc0 | par]) + key + b"".join(paths[i])
     wit = list(args) + [scripts[i], control]
-    return (f"key={q.hex()} parity={par} addr_program={q.hex()} control={control.hex()} script={item(scripts[i])} "
+    return (f"key={q.hex()} parity={par} addr_program={q.hex()} address={bech32m_encode(hrp, 1, q)} control={control.hex()} script={item(scripts[i])} "
             f"witness={items(wit)} txwitness={items([PLACEHOLDER] + wit)} root={root.hex()} tweak={tw}")
 
 
 class Case:
-    __slots__ = ("key", "scripts", "sel", "hrp", "line", "vout", "seed", "impl", "side")
+    __slots__ = ("key", "scripts", "sel", "hrp", "line", "vout", "seed", "impl", "side", "extra")
 
-    def __init__(self, key, scripts, sel, hrp, vout=0, seed=0):
+    def __init__(self, key, scripts, sel, hrp, vout=0, seed=0, extra=0):
         self.key, self.scripts, self.sel, self.hrp, self.vout, self.seed = key, scripts, sel, hrp, vout, seed
-        self.line = tap_line(key, scripts, sel, hrp)
+        self.extra = extra
+        self.line = tap_line(key, scripts, sel, hrp, vout, seed, extra)
         self.impl = None
         self.side = None
 
 
 def tap_argv(c, txs):
-    av = ["-p" + c.hrp] if c.hrp != "bcrt" else []
+    av = ["--addrprefix=" + c.hrp] if c.hrp != "bcrt" else []
     if txs:
         av += ["--tx=" + ser_tx(*txs[1]).hex(), "--txin=" + ser_tx(*txs[0]).hex()]
     av += [c.key.hex(), str(len(c.scripts))] + ["0x" + s.hex() for s in c.scripts]
@@ -587,7 +612,7 @@ def tap_argv(c, txs):
 
 def exec_case(tapbin, c, outkey):
     """run tap on one case; with transactions when the output key is known (needed to fund the input)"""
-    txs = funding_txs(c.seed, outkey, c.vout) if outkey else None
+    txs = funding_txs(c.seed, outkey, c.vout, c.extra) if outkey else None
     rc, out, err = run_tap(tapbin, tap_argv(c, txs))
     c.impl, c.side = observe(rc, out, err, bool(txs))
     c.side["txs"] = txs
@@ -596,6 +621,13 @@ def exec_case(tapbin, c, outkey):
 
 def run_cases(ctx, stream, cases, tapbin, with_tx=True, workers=12):
     """all voices on a list of cases; returns the number of disagreements"""
+    written = [0]
+
+    def violation(case, detail, suffix=""):
+        # every disagreement is counted, the first few per stream are written out as replay files
+        written[0] += 1
+        if written[0] <= 4:
+            ctx.violation(case, detail, suffix=suffix)
     # the output key of each distinct (key, scripts) — from the reference; tap itself refuses the run if it disagrees
     # ("pubkey mismatch"), which is part of the property (the key must not depend on the selection)
     keycache = {}
@@ -619,14 +651,18 @@ def run_cases(ctx, stream, cases, tapbin, with_tx=True, workers=12):
     a = [i for i in range(len(cases)) if has_tx[lines[i]]]
     b = [i for i in range(len(cases)) if not has_tx[lines[i]]]
     bad = 0
+
+    def region(case, im, mo, sp):
+        # tap does not validate --addrprefix: implementation and model agree, BIP173 has no such address
+        return FINDING_HRP if not hrp_valid(parse_tap_line(case)[3]) else None
     for idxs, ob, name in ((a, None, stream), (b, strip_tx_fields, stream + "-notx")):
         if idxs:
             bad += ctx.compare(name, [lines[i] for i in idxs], [impl[i] for i in idxs], [model[i] for i in idxs],
-                               [spec[i] for i in idxs], observable=ob, nontrivial=lambda c_, i_: i_.startswith("key="))
+                               [spec[i] for i in idxs], observable=ob, region=region, nontrivial=lambda c_, i_: i_.startswith("key="))
     # ---- python reference voice and the cross-run facts
     npy = 0
     for c in cases:
-        want = python_line(c.key, c.scripts, c.sel)
+        want = python_line(c.key, c.scripts, c.sel, c.hrp)
         if want is None:
             continue
         npy += 1
@@ -635,7 +671,7 @@ def run_cases(ctx, stream, cases, tapbin, with_tx=True, workers=12):
             want, got = strip_tx_fields(want), strip_tx_fields(got)
         differs = got != want
         if differs and not (c.impl.startswith("key=") and want.startswith("key=")):
-            ctx.violation(c.line, {"stream": stream, "why": "tap's output differs from the independent BIP341 reference", "impl": c.impl, "python": want})
+            violation(c.line, {"stream": stream, "why": "tap's output differs from the independent BIP341 reference", "impl": c.impl, "python": want})
             bad += 1
             continue
         bad0 = bad
@@ -645,14 +681,14 @@ def run_cases(ctx, stream, cases, tapbin, with_tx=True, workers=12):
         q = bytes.fromhex(f["key"])
         addr = c.side.get("address")
         if addr != bech32m_encode(c.hrp, 1, q) or c.side.get("addr") != (c.hrp, 1, q):
-            ctx.violation(c.line, {"stream": stream, "why": "printed address is not bech32m(hrp, 1, output key)", "address": addr,
+            violation(c.line, {"stream": stream, "why": "printed address is not bech32m(hrp, 1, output key)", "address": addr,
                                    "expected": bech32m_encode(c.hrp, 1, q)})
             bad += 1
         if c.sel is not None and c.side.get("txs"):
             control = bytes.fromhex(f["control"])
             script = b"" if f["script"] == "_" else bytes.fromhex(f["script"])
             if script != c.scripts[c.sel[0]] or not verify_control(control, script, q):
-                ctx.violation(c.line, {"stream": stream, "why": "emitted (control block, script) does not verify under BIP341 against the printed key",
+                violation(c.line, {"stream": stream, "why": "emitted (control block, script) does not verify under BIP341 against the printed key",
                                        "impl": c.impl})
                 bad += 1
         if c.side.get("txs") and c.side.get("sighash"):
@@ -661,14 +697,14 @@ def run_cases(ctx, stream, cases, tapbin, with_tx=True, workers=12):
             tl = leaf_hash(c.scripts[c.sel[0]]) if c.sel is not None else None
             want_sh = sighash341(c.side["tx"], spent, 0, tl).hex()
             if want_sh != c.side["sighash"]:
-                ctx.violation(c.line, {"stream": stream, "why": "reported sighash is not the BIP341/342 digest of the transaction tap outputs",
+                violation(c.line, {"stream": stream, "why": "reported sighash is not the BIP341/342 digest of the transaction tap outputs",
                                        "impl_sighash": c.side["sighash"], "python": want_sh, "tx": ser_tx(*c.side["tx"]).hex(),
                                        "txin": ser_tx(*txin).hex()})
                 bad += 1
         if differs and bad == bad0:
             # what tap printed is consistent under BIP341 (address, control block, sighash) but is not what the reference
             # computes from scratch: the tree has another shape than the one described by the model and the reference
-            ctx.violation(c.line, {"stream": stream, "why": "correspondence: tap's output verifies under BIP341 but differs from the reference "
+            violation(c.line, {"stream": stream, "why": "correspondence: tap's output verifies under BIP341 but differs from the reference "
                                    "(another tree shape / tweak than modelled)", "impl": c.impl, "python": want}, suffix="no-failing-input-found")
             bad += 1
     ctx.count(stream + "-python", npy)
@@ -679,7 +715,7 @@ def run_cases(ctx, stream, cases, tapbin, with_tx=True, workers=12):
             groups.setdefault((c.key, tuple(c.scripts), c.hrp), set()).add(c.side.get("address"))
     for k, v in groups.items():
         if len(v) != 1:
-            ctx.violation(tap_line(k[0], list(k[1]), None, k[2]), {"stream": stream, "why": "address depends on the selected leaf", "addresses": sorted(map(str, v))})
+            violation(tap_line(k[0], list(k[1]), None, k[2]), {"stream": stream, "why": "address depends on the selected leaf", "addresses": sorted(map(str, v))})
             bad += 1
     # ---- the debugger's own commitment check on what tap printed
     tce_lines = []
@@ -694,9 +730,36 @@ def run_cases(ctx, stream, cases, tapbin, with_tx=True, workers=12):
         bad += ctx.compare(stream + "-tce", tce_lines, ti, tm, ts, nontrivial=lambda c_, i_: "result=" in i_)
         for l, r in zip(tce_lines, ti):
             if "result=DONE" not in r:
-                ctx.violation(l, {"stream": stream + "-tce", "why": "the debugger's commitment check rejects what tap printed", "impl": r})
+                violation(l, {"stream": stream + "-tce", "why": "the debugger's commitment check rejects what tap printed", "impl": r})
                 bad += 1
+    # ---- the reported signature hash: tap's log line vs the model of configure_tx_txin + calc_sighash vs the BIP341/342 digest
+    sh = [(f"TAPSIGHASH {ser_tx(*c.side['tx']).hex()} {ser_tx(*c.side['txs'][0]).hex()}", c.side["sighash"])
+          for c in cases if c.side.get("txs") and c.side.get("sighash") and c.side.get("tx")]
+    if sh:
+        sl = [x[0] for x in sh]
+        bad += ctx.compare(stream + "-sighash", sl, [x[1] for x in sh], ctx.driver_sharded(sl, "model"), ctx.driver_sharded(sl, "spec"),
+                           nontrivial=lambda c_, i_: len(i_) == 64)
     return bad
+
+
+def run_multi_input(ctx, cases, tapbin):
+    """the documented limitation: with more than one input in the spending transaction `Instance::calc_sighash` dies on the
+    assertion in `PrecomputedTransactionData::Init` (implementation vs model; the specification has a digest, tap reports none)"""
+    for c in cases:
+        pl = python_line(c.key, c.scripts, None)
+        m = re.match(r"key=([0-9a-f]{64}) ", pl or "")
+        exec_case(tapbin, c, bytes.fromhex(m.group(1)))
+    lines, impl = [], []
+    for c in cases:
+        txin, tx = c.side["txs"]
+        want = python_line(c.key, c.scripts, c.sel)
+        wit = [PLACEHOLDER] + ([] if c.sel is None else list(c.sel[1]) + [c.scripts[c.sel[0]], bytes.fromhex(re.search(r"control=([0-9a-f]+)", want).group(1))])
+        tx[1][0][4] = wit
+        lines.append(f"TAPSIGHASH {ser_tx(*tx).hex()} {ser_tx(*txin).hex()}")
+        impl.append(c.impl)
+    model = ctx.driver(lines, "model")
+    ctx.compare("sighash-multi-input", lines, impl, model, None, observable=lambda x: "ABORT" if x.startswith("ABORT") else x,
+                nontrivial=lambda c_, i_: i_.startswith("ABORT"))
 
 
 # --------------------------------------------------------------------------------------------------
@@ -751,6 +814,9 @@ def arg_stream(rnd, quick):
 # --------------------------------------------------------------------------------------------------
 
 HRPS = ["bcrt", "tb", "bc", "x", "tapro0t", "a" * 20]
+# prefixes BIP173 does not allow (or an encoder must not emit): tap takes them as they are
+BAD_HRPS = ["TB", "Bcrt", "", "a b", "t\x7fb", "z" * 84, " tb"]
+FINDING_HRP = "F-C06-hrp-unchecked"
 
 
 def run(ctx):
@@ -809,6 +875,19 @@ def run(ctx):
         for i in sorted(idxs):
             big.append(Case(key, scripts, (i, [b"\x01"] if i % 2 else []), hrp, i % 2, seed=rnd.randrange(1 << 30)))
     run_cases(ctx, "random-n-up-to-1024", big, tapbin)
+    # ---- address prefixes: exotic valid ones, and ones BIP173 excludes (known finding: tap does not check the prefix)
+    pre = []
+    for hrp in ["1", "bc1", "~", "!" * 83, "q" * 40, "tb", "bcrt"] + BAD_HRPS:
+        key = rand_key(rnd)
+        scripts = rand_scripts(rnd, rnd.choice((1, 2, 3)))
+        pre.append(Case(key, scripts, None, hrp))
+        pre.append(Case(key, scripts, (len(scripts) - 1, []), hrp))
+    run_cases(ctx, "address-prefix", pre, tapbin, with_tx=False)
+    # ---- more than one input
+    mi = []
+    for n, sel, extra in ((1, None, 1), (1, (0, []), 1), (3, (2, [b"\x07"]), 2), (4, None, 3)):
+        mi.append(Case(rand_key(rnd), rand_scripts(rnd, n), sel, "bcrt", 0, seed=rnd.randrange(1 << 30), extra=extra))
+    run_multi_input(ctx, mi, tapbin)
     # ---- keys that are not valid, counts out of range (decoded-argument level: all voices)
     odd = []
     sc3 = rand_scripts(rnd, 3)
@@ -832,19 +911,30 @@ def replay(ctx, case):
         print("impl :", observe(rc, out, err, False)[0])
         print("model:", ctx.driver([case])[0])
         return
+    if case.startswith("TAPSIGHASH"):
+        print("model:", ctx.driver([case])[0])
+        print("spec :", ctx.driver([case], "spec")[0])
+        print("(impl: the 'sighash (little endian)' line of the tap run that produced this transaction; re-run the TAP case)")
+        return
     if case.startswith("TCE"):
         print("impl :", ctx.harness([case])[0])
         print("model:", ctx.driver([case])[0])
         print("spec :", ctx.driver([case], "spec")[0])
         return
     key, scripts, sel, hrp = parse_tap_line(case)
-    c = Case(key, scripts, sel, hrp)
+    vout, seed, extra = parse_tx_word(case)
+    c = Case(key, scripts, sel, hrp, vout, seed, extra)
     m = re.match(r"key=([0-9a-f]{64}) ", python_line(key, scripts, None) or "")
     exec_case(tapbin, c, bytes.fromhex(m.group(1)) if m else None)
     print("argv  :", " ".join(tap_argv(c, c.side.get("txs"))))
     print("impl  :", c.impl)
     print("model :", ctx.driver([case])[0])
     print("spec  :", ctx.driver([case], "spec")[0])
-    print("python:", python_line(key, scripts, sel))
+    print("python:", python_line(key, scripts, sel, hrp))
     if c.side.get("sighash"):
         print("sighash (tap):", c.side["sighash"])
+        txin = c.side["txs"][0]
+        tl = leaf_hash(scripts[sel[0]]) if sel is not None else None
+        print("sighash (ref):", sighash341(c.side["tx"], [txin[2][vout]], 0, tl).hex())
+        sl = [f"TAPSIGHASH {ser_tx(*c.side['tx']).hex()} {ser_tx(*txin).hex()}"]
+        print("sighash (model):", ctx.driver(sl)[0], " (spec):", ctx.driver(sl, "spec")[0])
